@@ -138,7 +138,10 @@ func c13Value(label string, depth int) Value {
 	// the second member of a container ranges over all classes only in the thorough tier
 	second := func(l string) Value {
 		if vrt.Thorough() {
-			return c13Value(l, depth-1)
+			// more fixed companions, among them nested containers (depth 2) and values whose
+			// hashes collide with the boundary classes (payload -1 in another kind)
+			return []Value{Long(-1), String("\"\\<\u00e9"), NewEntityUID("T", "x"), Datetime{value: -1}, Decimal{value: 0},
+				NewSet(Long(1), String("x")), NewRecord(RecordMap{"k": True, "__extn": Long(1)})}[vrt.Choice(l+".fixed", 7)]
 		}
 		// (a second symbolic member multiplies the paths through the hash-keyed set
 		// and record maps: every pair of symbolic hashes may or may not collide)
@@ -146,10 +149,11 @@ func c13Value(label string, depth int) Value {
 	}
 	switch vrt.Choice(label+".shape", shapes) {
 	case 0:
-		if depth < c13Depth() && !vrt.Thorough() {
-			// inside a container the quick tier leaves out the symbolic numeric payloads
-			// (classes 0, 7, 9); they are covered as top-level values and in the typed harness
-			return c13Scalar(label, []int{1, 2, 3, 4, 5, 6, 8, 10, 11, 12}[vrt.Choice(label+".member-class", 10)])
+		if depth < c13Depth() {
+			// inside a container the symbolic numeric payloads (classes 0, 7, 9) are left out
+			// (digit arithmetic mixed with the hash-keyed maps did not finish in 40 minutes);
+			// they are covered as top-level values, in the typed harness and in LongLiterals
+			return c13Scalar(label, []int{1, 2, 3, 4, 5, 6, 8, 10, 11, 12, 13}[vrt.Choice(label+".member-class", 11)])
 		}
 		return c13Scalar(label, vrt.Choice(label+".class", c13ScalarClasses))
 	case 1:
@@ -210,12 +214,9 @@ func c13SameKind(a, b Value) bool {
 	return false
 }
 
-func c13Depth() int {
-	if vrt.Thorough() {
-		return 2
-	}
-	return 1
-}
+// c13Depth: one level of symbolic nesting in both tiers (a second level made the
+// thorough tier run past 45 minutes); the thorough tier nests fixed containers.
+func c13Depth() int { return 1 }
 
 // Every value survives value -> JSON -> value, with the same type tag, and the
 // second encoding is byte-identical.
@@ -342,11 +343,7 @@ func c13Entity(label string) Entity {
 	case 1:
 		if c13FocusOn == 2 {
 			c13NoMagic = true
-			if vrt.Thorough() {
-				e.Attributes = NewRecord(RecordMap{"a": c13Value(label+".attr", 1)})
-			} else {
-				e.Attributes = NewRecord(RecordMap{"a": c13Scalar(label+".attr", vrt.Choice(label+".attr-class", c13ScalarClasses))})
-			}
+			e.Attributes = NewRecord(RecordMap{"a": c13Scalar(label+".attr", vrt.Choice(label+".attr-class", c13ScalarClasses))})
 			c13NoMagic = false
 		} else {
 			e.Attributes = NewRecord(RecordMap{"a": NewSet(Long(1), String("s"))})
